@@ -171,6 +171,13 @@ Lemma subtree_output_unfold c8 h K F ctr bytes :
          (chaining_value c8 (subtree_output c8 h K F (ctr + l / 1024) (drop l bytes))).
 Proof. reflexivity. Qed.
 
+Lemma spec_tree_unfold h ctr bytes :
+  spec_tree (S h) ctr bytes =
+  if len bytes <=? 1024 then Leaf ctr bytes
+  else let l := left_len (len bytes) in
+       Node (spec_tree h ctr (take l bytes)) (spec_tree h (ctr + l / 1024) (drop l bytes)).
+Proof. reflexivity. Qed.
+
 Lemma tree_height_S : tree_height = S 63.
 Proof. reflexivity. Qed.
 
